@@ -438,7 +438,8 @@ func (h *hcache) observe(useGet bool) view {
 		} else if m, ok := h.file.entriesMetadata[k]; ok {
 			st, err := os.Stat(filepath.Join(h.dir, k.Hex))
 			if err != nil {
-				v.Problems = append(v.Problems, fmt.Sprintf("entry %s has no file: %v", n, err))
+				v.Problems = append(v.Problems, fmt.Sprintf("entry %s is in the map but has no file", n))
+				_ = err
 				v.RetrCount++
 				continue
 			}
